@@ -181,6 +181,117 @@ def _return_only_without_simulation(ret, init):
         return False
 
 
+def _undo_stack_protocol(T, with_stmt):
+    """`with self.<stack>:` around the constructor's steps, <stack> an ExitStack of the update object on which every
+    replacement pushes its own undo: (stack attribute, restoring method, problems). None when the with statement is not of
+    that kind. The protocol holds when
+      * the stack is an ExitStack created once per update (a cached property / an attribute set in the constructor);
+      * every replacement in the methods of the class (X.replace…(Y), V.update_function()) is followed, in the same block and
+        before anything else that may raise, by `self.<stack>.callback(self.<undo>, X, Y)` — the method itself, its
+        arguments bound now (a lambda would read the loop variables when the stack unwinds);
+      * <undo>(previous, new) re-installs `previous` in place of `new`;
+      * the undos are only dropped (pop_all) as the last step of the with body."""
+    stack = None
+    for it in with_stmt.items:
+        e = it.context_expr
+        if isinstance(e, ast.Attribute) and isinstance(e.value, ast.Name) and e.value.id == "self":
+            m = T.methods.get(e.attr)
+            made = False
+            if m is not None and any("property" in norm(d) for d in m.decorator_list):
+                rets = [r.value for r in ast.walk(m) if isinstance(r, ast.Return) and r.value is not None]
+                made = bool(rets) and all(isinstance(r, ast.Call) and norm(r.func).split(".")[-1] == "ExitStack" for r in rets)
+                cached = any("cached_property" in norm(d) for d in m.decorator_list)
+                if made and not cached:
+                    return e.attr, None, [f"self.{e.attr} builds a new ExitStack at every access: the undos are pushed on "
+                                          f"stacks that nobody unwinds"]
+            else:
+                init = T.methods.get("__init__")
+                made = init is not None and any(
+                    isinstance(a, ast.Assign) and any(norm(t) == f"self.{e.attr}" for t in a.targets)
+                    and isinstance(a.value, ast.Call) and norm(a.value.func).split(".")[-1] == "ExitStack" for a in ast.walk(init))
+            if made:
+                stack = e.attr
+    if stack is None:
+        return None
+    problems, undo = [], None
+
+    def is_push(c):
+        return isinstance(c, ast.Call) and isinstance(c.func, ast.Attribute) and c.func.attr in ("callback", "push") \
+            and norm(c.func.value) == f"self.{stack}"
+    undo_names = {x.attr for fn in T.methods.values() for c in ast.walk(fn) if is_push(c) for a in c.args for x in ast.walk(a)
+                  if isinstance(x, ast.Attribute) and isinstance(x.value, ast.Name) and x.value.id == "self" and x.attr in T.methods}
+    for name, fn in T.methods.items():
+        if name in undo_names:
+            continue
+        for block in [n for n in ast.walk(fn) if isinstance(n, (ast.For, ast.While, ast.If, ast.FunctionDef, ast.With, ast.Try))]:
+            for field in ("body", "orelse", "finalbody"):
+                stmts = getattr(block, field, None)
+                if not isinstance(stmts, list):
+                    continue
+                for i, st in enumerate(stmts):
+                    if not isinstance(st, ast.Expr) or not isinstance(st.value, ast.Call) or not isinstance(st.value.func, ast.Attribute):
+                        continue
+                    c = st.value
+                    if c.func.attr not in ("replace_in_mod_obj_container_without_recomputation", "update_function"):
+                        continue
+                    if name in ("reset_values", "set_updated_values") or name == undo:
+                        continue
+                    old_v = norm(c.func.value)
+                    new_v = norm(c.args[0]) if c.args else None
+                    push = None
+                    for later in stmts[i + 1:]:
+                        calls = [x for x in ast.walk(later) if isinstance(x, ast.Call)]
+                        if any(is_push(x) for x in calls):
+                            push = next(x for x in calls if is_push(x))
+                            break
+                        risky = [x for x in calls if (isinstance(x.func, ast.Attribute) and (
+                            x.func.attr in RAISE_PRIMS or x.func.attr in MUT_PRIMS
+                            or (_self_method_call(x) in T.methods and T.may_raise(_self_method_call(x)))))] \
+                            or [x for x in ast.walk(later) if isinstance(x, ast.Raise)]
+                        if risky:
+                            break
+                    where = f"ModelingUpdate.{name}"
+                    if push is None:
+                        problems.append((st, where, f"`{norm(c)[:70]}` is not followed by its undo being pushed on "
+                                                    f"self.{stack} (before anything else that can raise): if the update fails "
+                                                    f"later, this replacement stays in the model"))
+                        continue
+                    if not push.args or isinstance(push.args[0], ast.Lambda):
+                        problems.append((st, where, f"the undo pushed after `{norm(c)[:50]}` is a lambda: it reads its "
+                                                    f"variables when the stack unwinds — after the loop, all undos put back the "
+                                                    f"last pair"))
+                        continue
+                    um = push.args[0].attr if isinstance(push.args[0], ast.Attribute) and norm(push.args[0].value) in ("self", "type(self)", "ModelingUpdate") else None
+                    if um is None or um not in T.methods:
+                        problems.append((st, where, f"the undo pushed after `{norm(c)[:50]}` is not a method of the update"))
+                        continue
+                    undo = undo or um
+                    given = [norm(a) for a in push.args[1:]]
+                    if len(given) != 2 or given[0] != old_v or (new_v is not None and given[1] != new_v):
+                        problems.append((st, where, f"after `{norm(c)[:60]}` the undo is pushed for ({', '.join(given)}) instead "
+                                                    f"of ({old_v}, {new_v or '<the recomputed value>'})"))
+    if undo is not None:
+        uf = T.methods[undo]
+        ps = [a.arg for a in uf.args.args if a.arg not in ("self", "cls")]
+        rep = next((c for c in ast.walk(uf) if isinstance(c, ast.Call) and isinstance(c.func, ast.Attribute)
+                    and c.func.attr == "replace_in_mod_obj_container_without_recomputation"), None)
+        if len(ps) != 2 or rep is None or not rep.args or norm(rep.func.value) != ps[1] or norm(rep.args[0]) != ps[0]:
+            problems.append((uf, f"ModelingUpdate.{undo}", f"{undo}(previous, new) does not put `previous` back in place of "
+                                                           f"`new`"))
+    else:
+        problems.append((with_stmt, "ModelingUpdate.__init__", f"nothing is ever pushed on self.{stack}"))
+    # the undos are dropped only as the very last step of the protected block
+    for name, fn in T.methods.items():
+        for c in ast.walk(fn):
+            if isinstance(c, ast.Call) and isinstance(c.func, ast.Attribute) and c.func.attr in ("pop_all", "close") \
+                    and norm(c.func.value) == f"self.{stack}":
+                last = with_stmt.body[-1] if with_stmt.body else None
+                if not (last is not None and any(x is c for x in ast.walk(last))):
+                    problems.append((c, f"ModelingUpdate.{name}", f"self.{stack}.{c.func.attr}() is called before the protected "
+                                                                  f"steps are over: a later failure has nothing left to undo"))
+    return stack, undo, problems
+
+
 @rule("R-TXN")
 def r_txn(E):
     pm = E.pm
@@ -195,6 +306,7 @@ def r_txn(E):
         raise AnalysisError("ModelingUpdate.__init__ vanished")
     findings = []
     state = {"mut": False}
+    undo_state = {"stack": None, "undo": None, "with": None}
     events = []
 
     def clause_of(what):
@@ -228,6 +340,20 @@ def r_txn(E):
                 walk(s.body, prot or handler_ok or fin_ok, func, depth)
                 walk(s.orelse, prot, func, depth)
                 walk(s.finalbody, prot, func, depth)
+                continue
+            if isinstance(s, ast.With):
+                proto = _undo_stack_protocol(T, s) if func == "ModelingUpdate.__init__" else None
+                if proto is not None:
+                    undo_state["stack"], undo_state["undo"], probs = proto
+                    undo_state["with"] = s
+                    for node_, where_, text_ in probs:
+                        res.findings.append(Finding(
+                            "R-TXN", f"{where_} :: undo stack :: {text_[:60]}", f"{where_}: {text_}", rel,
+                            getattr(node_, "lineno", s.lineno), where_, {"clauses": ["sim", "recompute", "val"]}))
+                    res.instances += 1
+                    walk(s.body, prot or not probs, func, depth)
+                else:
+                    walk(s.body, prot, func, depth)
                 continue
             if isinstance(s, ast.If):
                 for c in _calls(s.test):
@@ -310,6 +436,9 @@ def r_txn(E):
                 for c in _calls(h):
                     if _self_method_call(c) in restorers:
                         handler_used = _self_method_call(c)
+    via_stack = handler_used is None and undo_state["undo"] is not None
+    if via_stack:
+        handler_used = undo_state["undo"]
     if handler_used:
         fn = T.methods[handler_used]
         mentioned = {n.attr for n in ast.walk(fn) if isinstance(n, ast.Attribute) and isinstance(n.value, ast.Name)
@@ -334,6 +463,8 @@ def r_txn(E):
                 "recomputed_values"]
         for nm in need:
             res.instances += 1
+            if via_stack:
+                continue       # every replacement pushes its own undo (checked pair by pair above)
             if nm not in mentioned:
                 res.findings.append(Finding(
                     "R-TXN", f"ModelingUpdate.{handler_used} :: does not restore {nm}",
@@ -362,7 +493,7 @@ def r_txn(E):
                     f"previous value of the edited one (`b.x = a.x` refused, and afterwards a.x holds b's old value)", rel,
                     rep.lineno, f"ModelingUpdate.{handler_used}", {"clauses": ["val", "recompute", "sim"]}))
         # partial progress of the raising loop must be visible: recompute_attributes publishes its list before the loop
-        rec = T.methods.get("recompute_attributes")
+        rec = T.methods.get("recompute_attributes") if not via_stack else None
         res.instances += 1
         if rec is not None:
             published = None
